@@ -1,6 +1,7 @@
 (* C07 — Output and local-namespace limits bound what they measure.  Property theorems only.
-   Statements are about Limits.run_prog, the executable model the correspondence run compares with the engine
-   (repaired: .work/fixes/C08-zero-limits.patch makes a local_namespace_limit of 0 a limit). *)
+   Statements are about Limits.run_prog v, the executable model the correspondence run compares with the engine
+   at v = Limits.repaired; is_repaired v: both repairs present (.work/fixes/C08-zero-limits.patch makes a
+   local_namespace_limit of 0 a limit), v_item (one render-for context or one per item) left free. *)
 From LiquidVerif Require Import Prelude PyPrims Limits Limits_Proofs Limits_Sim_Proofs.
 Local Open Scope Z_scope.
 
@@ -24,11 +25,11 @@ Print Assumptions C07_buffer_invariant.
 
 (* strict mode: if the render completes with the output limit removed (other limits unchanged) and returns more
    than L bytes, then under output_stream_limit L it raises OutputStreamLimitError *)
-Theorem C07_output_raises : forall lim L main sizes s,
+Theorem C07_output_raises : forall v, is_repaired v -> forall lim L main sizes s,
   l_out lim = Some L -> 0 <= L ->
-  run_prog repaired (with_out lim None) main sizes = LOk s ->
+  run_prog v (with_out lim None) main sizes = LOk s ->
   L < utf8_bytes (buf_text (s_buf s)) ->
-  run_prog repaired lim main sizes = LErr XOutput.
+  run_prog v lim main sizes = LErr XOutput.
 Proof. exact run_out_raises. Qed.
 Print Assumptions C07_output_raises.
 
@@ -37,8 +38,8 @@ Print Assumptions C07_output_raises.
     size the engine computed = own locals + local_namespace_size_carry).  For every stream of measured sizes
    (sys.getsizeof is an oracle), the two agree - the carry IS the ancestors' measured size - and with a limit M
    the true total never exceeded M. *)
-Theorem C07_namespace_bound : forall lim main sizes s,
-  run_prog repaired lim main sizes = LOk s ->
+Theorem C07_namespace_bound : forall v lim, is_repaired v -> forall main sizes s,
+  run_prog v lim main sizes = LOk s ->
   Forall (fun p => fst p = snd p /\ forall M, l_ns lim = Some M -> fst p <= M) (s_nslog s).
 Proof. exact run_ns_bound. Qed.
 Print Assumptions C07_namespace_bound.
